@@ -34,16 +34,37 @@ func ctxName(c parser.ContextType) string {
 	return fmt.Sprint(int(c))
 }
 
-func recordContexts(src string, m Mode) (obs []ctxObs, p *parser.Parser, err error) {
+var nestedSources = []string{"function q(){ { x } }", "{ { a } }", "f(function(){ return {a:1} })", "function q(){ {", "if (a) { function g(){ h( } }", "x", ""}
+
+// recordContexts parses src with one recording statement and one recording expression interceptor. With nestEvery > 0
+// every nestEvery-th invocation additionally builds a second parser FROM THE SAME BUILDER and runs it to completion on
+// a nesting-heavy snippet while the outer parser is in the middle of its parse (what a macro-expanding plugin does),
+// then records the outer parser's answers again: one builder builds independent parsers, so they must be unchanged.
+func recordContexts(src string, m Mode, nestEvery int) (obs []ctxObs, p *parser.Parser, nested int, err error) {
 	b := newBuilder(m)
-	b.UseStatementInterceptor(func(p *parser.Parser, next func() ast.Statement) ast.Statement {
+	depth, calls := 0, 0
+	record := func(kind string, p *parser.Parser) {
+		if depth > 0 {
+			return // an invocation that belongs to a nested parser
+		}
 		st, _ := hookStack(p)
-		obs = append(obs, ctxObs{"statement", p.CurrentToken.Start, p.IsInFunction(), p.CurrentContext(), st})
+		obs = append(obs, ctxObs{kind, p.CurrentToken.Start, p.IsInFunction(), p.CurrentContext(), st})
+		calls++
+		if nestEvery > 0 && calls%nestEvery == 0 {
+			depth++
+			b.Build(nestedSources[calls%len(nestedSources)]).ParseProgram()
+			depth--
+			nested++
+			st, _ := hookStack(p)
+			obs = append(obs, ctxObs{kind + " (after a nested parse by another parser of the same builder)", p.CurrentToken.Start, p.IsInFunction(), p.CurrentContext(), st})
+		}
+	}
+	b.UseStatementInterceptor(func(p *parser.Parser, next func() ast.Statement) ast.Statement {
+		record("statement", p)
 		return next()
 	})
 	b.UseExpressionInterceptor(func(p *parser.Parser, next func() ast.Expression) ast.Expression {
-		st, _ := hookStack(p)
-		obs = append(obs, ctxObs{"expression", p.CurrentToken.Start, p.IsInFunction(), p.CurrentContext(), st})
+		record("expression", p)
 		return next()
 	})
 	p = b.Build(src)
@@ -97,9 +118,14 @@ func runC16Program(t *fw.T) {
 		var p *parser.Parser
 		var err error
 		wit := func() map[string]any { return map[string]any{"source": rd.Src, "mode": m.String()} }
-		if !t.Guard("parse with recording interceptors", wit, func() { obs, p, err = recordContexts(rd.Src, m) }) {
+		nestEvery, nested := 0, 0
+		if r.IntN(2) == 0 {
+			nestEvery = 1 + r.IntN(5)
+		}
+		if !t.Guard("parse with recording interceptors", wit, func() { obs, p, nested, err = recordContexts(rd.Src, m, nestEvery) }) {
 			return
 		}
+		t.Count("nested_parses_by_a_second_parser_of_the_same_builder", nested)
 		if err != nil {
 			t.Inconclusive("generated program not accepted (C02's business)", rd.Src)
 			return
